@@ -191,6 +191,34 @@ def main():
             ap = c.apex
             if sorted(l for l in fl if pyrgen.is_desc(l, ap)) != sorted(leaves) and (ap[0] == 0 or full.reachable(ap)):
                 h.violation(f"restrict:{c.line()}", f"[{c.line()}] sub-pyramid leaves are not the restriction of the full pyramid's", input=c.line())
+        # histories on ONE object: count / walk it, restrict it with subpyramid(), use it again — whatever an object
+        # retains from earlier calls must not leak across the restriction, and repeated calls must agree
+        if c.apex is not None and not bad:
+            try:
+                from toasty.pyramid import Pos
+                obj = pyrgen.PyrCase(c.depth, c.kind, c.acc, None).build()
+                pre = (obj.count_leaf_tiles(), obj.count_live_tiles(), obj.count_operations())
+                if rng.random() < 0.5:
+                    obj.walk(lambda pos: None, parallel=1)
+                if rng.random() < 0.5:
+                    obj.visit_leaves(lambda pos, tile: None, parallel=1)
+                obj.subpyramid(Pos(*c.apex))
+                post = (obj.count_leaf_tiles(), obj.count_live_tiles(), obj.count_operations())
+                hv_l, hv_o = [], []
+                obj.visit_leaves(lambda pos, tile: hv_l.append((pos.n, pos.x, pos.y)), parallel=1)
+                obj.walk(lambda pos: hv_o.append((pos.n, pos.x, pos.y)), parallel=1)
+                post2 = (obj.count_leaf_tiles(), obj.count_live_tiles(), obj.count_operations())
+                h.case(("history",) + c.key())
+                h.count("history", "count-restrict-count")
+                hbad = None
+                if post != (len(leaves), len(live), len(ops)) or post2 != post:
+                    hbad = f"after counting ({pre}) and then subpyramid({c.apex}) the same object reports leaf/live/ops = {post} (again: {post2}) but the sub-pyramid has {(len(leaves), len(live), len(ops))}"
+                elif sorted(hv_l) != sorted(leaves) or sorted(hv_o) != sorted(ops):
+                    hbad = f"after counting and then subpyramid({c.apex}) the same object visits {len(hv_l)} leaves / {len(hv_o)} operations, the sub-pyramid has {len(leaves)} / {len(ops)}"
+                if hbad:
+                    h.violation(f"history:{c.line()}", f"pyramid [{c.line()}]: {hbad}", input={"case": c.line(), "history": ["count_*", "subpyramid", "count_*", "visit_leaves", "walk", "count_*"]}, observed=hbad)
+            except Exception as e:
+                h.violation(f"history-crash:{c.line()}", f"count / subpyramid / count on one object [{c.line()}] raised {e!r}", input=c.line())
         if len(h.samples) < 3 and c.acc:
             h.sample({"case": c.line(), "counts": [nl, nv, no]})
     try:
